@@ -8,6 +8,8 @@ import traceback
 VERIF_DIR = os.environ.get("VERIF_DIR", os.path.dirname(os.path.dirname(os.path.abspath(__file__))))
 REPO = os.path.realpath(os.environ.get("VERIF_REPO", "/repo"))
 LIB_DIR = os.path.join(REPO, "qucumber") + os.sep
+# evidence/ and replays/ go below OUT_DIR (= /verif unless the mutation audit redirects them to its scratch dir)
+OUT_DIR = os.environ.get("VERIF_OUT", VERIF_DIR)
 
 
 class PropertyViolation(Exception):
@@ -146,11 +148,11 @@ def match_known(known, prop, viol, case):
 # replay files
 
 def write_replay(prop, sub, viol_bucket, message, case, detail=None):
-    d = os.path.join(VERIF_DIR, "replays", prop)
+    d = os.path.join(OUT_DIR, "replays", prop)
     os.makedirs(d, exist_ok=True)
     h = hashlib.sha1((sub + "|" + viol_bucket).encode()).hexdigest()[:10]
     path = os.path.join(d, f"{sub}-{h}.json")
     with open(path, "w") as f:
         json.dump({"property": prop, "sub": sub, "bucket": viol_bucket, "message": message,
                    "detail": detail, "case": case}, f, indent=1, sort_keys=True, default=_json_default)
-    return os.path.relpath(path, VERIF_DIR)
+    return os.path.relpath(path, OUT_DIR)
